@@ -100,7 +100,7 @@ theorem parse_tail (env : Env) (tail : Tail) (cs : Bool) (wft : tail.WF env cs) 
   cases tail with
   | none => exact ⟨st, by simp [Tail.lines, runP, Mode.flushTok, parseTokens], by simp [Tail.docTexts], by simp [tailTests]⟩
   | openFront body =>
-    obtain ⟨hcs, hb, hok⟩ : cs = false ∧ (∀ x ∈ body, x ≠ frontMatterFence) ∧ env.docCfgOk (joinNl body) = true := wft
+    obtain ⟨hcs, hb, hok⟩ : cs = false ∧ (∀ x ∈ body, x ≠ frontMatterFence) ∧ env.docCfgOk (joinNl body ++ ['\n']) = true := wft
     subst hcs
     simp only [Tail.lines]
     rw [runP_openFront _ body hb]
